@@ -104,9 +104,21 @@ def check(drv, pid, tier, seed):
         if stage in ('coq', 'hygiene', 'genparams'):
             # a proof obligation (or the translator's expectation) no longer checks
             tail = info.get('output', '')[-3000:]
+            more = {}
+            if cfg.get('late_files'):
+                # the statically extracted tables may say in words what changed in the sources (they need no compiled Coq file)
+                try:
+                    import footdiff
+                    diffs, regenerated, expected = footdiff.differences(drv)
+                    if diffs:
+                        more = dict(static_explanation=dict(what='differences between the statically extracted footprint tables (coq/ParamsFoot.v) and the expected ones (coq/IndepFacts.v)',
+                                                            difference_in_words=[d['words'] + '  [lemma ' + d['lemma'] + ' of the late file]' for d in diffs],
+                                                            regenerated=regenerated, expected=expected))
+                except Exception as e:   # never let the explanation break the report
+                    more = dict(static_explanation=dict(what='the static tables could not be compared: %r' % (e,)))
             path = violation(drv, pid, dict(property=pid, seed=seed, case='proof', kind='proof-obligation', stage=stage,
                                              theorem_or_correspondence='the Coq development no longer builds against the regenerated Params.v (stage %s)' % stage,
-                                             output=tail), 'no-failing-input-found')
+                                             output=tail, **more), 'no-failing-input-found')
             return 1
         print('check: cannot build (%s):\n%s' % (stage, info.get('output', '')[-3000:]))
         return 2
@@ -140,6 +152,18 @@ def check(drv, pid, tier, seed):
                 mism.append((base + m[0], m[1] if len(m) > 1 else 0, shard, m[0]))
         base += n
     viol = 0
+    # late files: obligations compiled by this property's check only (not part of the common build), e.g. the lemmas
+    # that compare the statically extracted footprint tables of C19 with the expected ones
+    static = None
+    static_fields = {}
+    if cfg.get('late_files'):
+        import footdiff
+        static = footdiff.run_late(drv, pid, cfg['late_files'])
+        if not static['ok']:
+            static_fields = dict(static_explanation=dict(
+                what='a static obligation of %s (file %s, first failing lemma %s; failing: %s) no longer holds for these sources; the difference between the regenerated and the expected tables is the explanation of this failing program'
+                     % (pid, static['failures'][0]['file'], static['failures'][0]['first_failing_lemma'], ', '.join(static.get('failing_lemmas') or [])),
+                difference_in_words=static.get('difference_in_words'), regenerated=static.get('regenerated'), expected=static.get('expected')))
     if broken:
         viol += 1
         violation(drv, pid, dict(property=pid, seed=seed, tier=tier, case='correspondence', kind='correspondence-broken',
@@ -180,17 +204,18 @@ def check(drv, pid, tier, seed):
             violation(drv, pid, dict(property=pid, seed=seed, tier=tier, count=count, case=g, step=step, kind='history',
                                      history=trace[:step + 1],
                                      explanation='the implementation (observed results in the history) and the model disagree at the last step shown; for this refinement-shaped property the difference on an observable is the counterexample',
-                                     model_view=mv[-4000:], rerun='./check replay <this file>'))
+                                     model_view=mv[-4000:], rerun='./check replay <this file>', **static_fields))
         elif g in pred:
             violation(drv, pid, dict(property=pid, seed=seed, tier=tier, count=count, case=g, step=step, kind='history',
                                      history=trace, property_predicates_violated_on_the_implementation=pred[g],
                                      explanation='the implementation and the model disagree on this case (code = second number of the mismatch, see the *Run.v file) AND the property\'s own predicates, evaluated by the harness on the observed behaviour of the real code, fail as listed: this case is the concrete failing input',
-                                     model_view=mv[-4000:], rerun='./check replay <this file>'))
+                                     model_view=mv[-4000:], rerun='./check replay <this file>', **static_fields))
         else:
             violation(drv, pid, dict(property=pid, seed=seed, tier=tier, count=count, case=g, step=step, kind='correspondence',
                                      history=trace,
                                      theorem_or_correspondence='correspondence %s (coq/*Run.v mismatch code %s): the implementation no longer behaves like the model the theorems are about on this case; the property\'s own predicates evaluated on the observed behaviour did not fail, so the property is no longer shown to hold rather than shown to fail' % (pid, step),
-                                     model_view=mv[-4000:], rerun='./check replay <this file>'), 'no-failing-input-found')
+                                     model_view=mv[-4000:], rerun='./check replay <this file>', **static_fields),
+                      '' if (static_fields and cfg.get('late_explains_correspondence')) else 'no-failing-input-found')
     # the property's own predicates failing on the implementation although model and implementation agree
     for g, bad in sorted(pred.items()):
         if g in [m[0] for m in mism]:
@@ -203,7 +228,20 @@ def check(drv, pid, tier, seed):
         reported += 1
         violation(drv, pid, dict(property=pid, seed=seed, tier=tier, count=count, case=g, kind='predicate', history=meta['traces'][g],
                                  property_predicates_violated_on_the_implementation=bad,
-                                 explanation='the property\'s own predicates, evaluated by the harness on the observed behaviour of the real code, fail on this case'))
+                                 explanation='the property\'s own predicates, evaluated by the harness on the observed behaviour of the real code, fail on this case', **static_fields))
+    if static is not None and not static['ok']:
+        if reported == 0:
+            viol += 1
+            # nothing concrete was found by the correspondence of this run: the static difference is reported on its own
+            f0 = static['failures'][0]
+            reported += 1
+            violation(drv, pid, dict(property=pid, seed=seed, tier=tier, case='static', kind='proof-obligation', stage='late_files',
+                                     theorem_or_correspondence='lemma %s of coq/%s (compiled by ./check %s only) no longer holds for the tables regenerated from the Go sources; all failing lemmas: %s'
+                                                               % (f0['first_failing_lemma'], f0['file'], pid, ', '.join(static.get('failing_lemmas') or [])),
+                                     lemma=f0['first_failing_lemma'], failing_lemmas=static.get('failing_lemmas'),
+                                     difference_in_words=static.get('difference_in_words'),
+                                     regenerated=static.get('regenerated'), expected=static.get('expected'), static_facts=static.get('static_facts'),
+                                     output=f0['output'], rerun='./check %s' % pid), 'no-failing-input-found')
     # findings the model mirrors (no mismatch arises): the harness replays their inputs on every run and says what it saw
     obs = {o['id']: o for o in (extra.get('known_finding_observations') or [])}
     for k in known:
@@ -218,7 +256,10 @@ def check(drv, pid, tier, seed):
         print('KNOWN-FINDING: property=%s %s' % (pid, k['what']), flush=True)
     if viol > reported:
         print('(%d further mismatching cases not written out)' % (viol - reported))
-    nobl, names = drv.count_obligations(cfg['files'])
+    nobl, names = drv.count_obligations(cfg['files'] + list(cfg.get('late_files') or []))
+    ndis = nobl
+    if static is not None and not static['ok']:
+        ndis = nobl - max(1, len(static.get('failing_lemmas') or []))
     coqchk = None
     if tier == 'thorough' and os.path.exists(os.path.join(drv.COQ, pid + '.vo')):
         # independent re-check of the property file and everything it depends on; lists the axioms
@@ -232,16 +273,18 @@ def check(drv, pid, tier, seed):
             violation(drv, pid, dict(property=pid, seed=seed, tier=tier, case='coqchk', kind='proof-obligation',
                                      theorem_or_correspondence='coqchk rejected %s.vo or one of its dependencies' % pid, output=out[-3000:]), 'no-failing-input-found')
     ev = dict(property_id=pid, tier=tier, seed=seed, level='proof',
-              coverage=dict(obligations=nobl, discharged=nobl,
+              coverage=dict(obligations=nobl, discharged=ndis,
                             checker_cmd='cd /verif/coq && coq_makefile -f _CoqProject -o Makefile && make -j16  (coqc 8.16.1, full .vo build); then coqc on build/%s/cases_*.v (vm_compute of the model on the generated histories)' % pid,
-                            trusted_base=assumptions_of(drv, pid) + TRUSTED_COMMON,
+                            trusted_base=assumptions_of(drv, pid) + (static.get('assumptions', []) if static is not None else []) + TRUSTED_COMMON,
                             evaluations=meta['cases'], distinct_nontrivial=meta['distinct_nontrivial'], rule=meta['rule'],
                             samples=meta['samples'], steps=meta['steps'],
                             traces_validated_against_impl=meta['cases'],
                             op_histogram=meta.get('op_histogram'), outcome_histogram=meta.get('outcome_histogram'),
                             type_histogram=meta.get('type_histogram'), length_histogram=meta.get('length_histogram'), extra=meta.get('extra'),
                             hangs=meta.get('hangs', 0), mismatching_cases=len(mism), known_findings_reported=sorted(known_hit),
-                            params=info.get('genparams'), obligations_files=cfg['files'], coqchk=coqchk,
+                            params=info.get('genparams'), obligations_files=cfg['files'] + list(cfg.get('late_files') or []), coqchk=coqchk,
+                            late_files=(dict(ok=static['ok'], files=static['files'], seconds=static['seconds'], failing_lemmas=static.get('failing_lemmas'),
+                                             difference_in_words=static.get('difference_in_words')) if static is not None else None),
                             timings=dict(build_s=info.get('coq_make_s'), go_build_s=info.get('go_build_s'), gen_s=gen_s, coqc_cases_s=coq_s)),
               assumptions=TRUSTED_COMMON, wall_s=round(time.time() - t0, 1), violations=viol)
     drv.write_evidence(pid, ev)
